@@ -200,21 +200,75 @@ def check(ctx):
             ctx.check(any(const_num(v) == 0 for v in inits), pstep, node, f"{best[0]} starts at 0", f"{best[0]} does not start at 0: a non-improving poll point can become the incumbent", construct=f"{best[0]} initial value")
     # initial incumbent
     mesh = R.init_mesh
-    ams = [n for n in ast.walk(mesh.node) if isinstance(n, ast.Call) and call_name(n) in ("np.argmin", "np.argmax", "np.nanargmin")]
+    mcfg = cfg_of(mesh)
+
+    def deref(e, at, hops=3):
+        """follow plain local aliases (Y_log = f_logger.Y; f_logger = self.function_logger)."""
+        stale = None
+        for _ in range(hops):
+            changed = False
+            for n in list(ast.walk(e)):
+                if isinstance(n, ast.Name) and isinstance(n.ctx, ast.Load) and n.id not in mesh.params:
+                    defs = reaching_assignments(prog, mesh, n.id, at)
+                    if len(defs) == 1 and isinstance(defs[0], (ast.Attribute, ast.Name)):
+                        d = defs[0]
+                        # staleness: a log array bound to a local before evaluations that may re-bind it (cache growth)
+                        if canon(d).startswith("LOG.") or (isinstance(d, ast.Attribute) and d.attr in ("X", "Y", "S", "X_orig", "Y_orig")):
+                            dstmt = d
+                            while not isinstance(dstmt, ast.stmt):
+                                dstmt = prog.parent(dstmt)
+                            dn, an = mcfg.node_of(dstmt), mcfg.node_of(at)
+                            if dn is not None and an is not None:
+                                between = mcfg.reachable(dn.id) & {mcfg.node_of(c).id for c in R.logger_calls(mesh) if mcfg.node_of(c) is not None}
+                                if any(an.id in mcfg.reachable(b) for b in between):
+                                    stale = (n.id, canon(d), dstmt)
+                        from .growth import subst
+
+                        e = subst(e, {n.id: d})
+                        changed = True
+                        break
+            if not changed:
+                break
+        return e, stale
+
+    ams = [n for n in ast.walk(mesh.node) if isinstance(n, ast.Call) and call_name(n) in ("np.argmin", "np.argmax", "np.nanargmin", "np.nanargmax")]
     found = False
     for am in ams:
         st = prog.parent(am)
         if not isinstance(st, ast.Assign) or not isinstance(st.targets[0], ast.Name):
             continue
         idx = st.targets[0].id
-        usesX = [s for t, v, s, k in iter_stores(mesh.node) if self_attr_of(t) == "u" and canon(strip_copy(v)) == f"LOG.X[{idx}]"]
-        usesY = [s for t, v, s, k in iter_stores(mesh.node) if self_attr_of(t) == "yval" and canon(strip_copy(v)) == f"LOG.Y[{idx}]"]
-        if usesX or usesY:
-            found = True
-            arg = am.args[0]
-            ok_arg = isinstance(arg, ast.Subscript) and canon(arg.value) == "LOG.Y" and isinstance(arg.slice, ast.Slice) and arg.slice.lower is None and canon(arg.slice.upper) in ("(1 + LOG.Xn)", "(1 + LOG.X_max_idx)")
-            ctx.check(call_name(am) in ("np.argmin", "np.nanargmin") and ok_arg and bool(usesX) and bool(usesY), mesh, st, "initial incumbent = argmin of the filled log; point and value at the same index",
-                      "the initial incumbent is not the argmin over the filled part of the log with point and value taken at the same index", construct=f"initial incumbent {canon(am)[:50]} -> X:{bool(usesX)} Y:{bool(usesY)}")
+        usesX, usesY, stales = [], [], []
+        for t, v, s, k in iter_stores(mesh.node):
+            a = self_attr_of(t)
+            if a in ("u", "yval") and v is not None and idx in {x.id for x in ast.walk(v) if isinstance(x, ast.Name)}:
+                dv, stl = deref(strip_copy(v), s)
+                if stl:
+                    stales.append(stl)
+                cv = canon(strip_copy(dv))
+                if a == "u" and cv == f"LOG.X[{idx}]":
+                    usesX.append(s)
+                if a == "yval" and cv == f"LOG.Y[{idx}]":
+                    usesY.append(s)
+        arg, stl = deref(am.args[0], st)
+        if stl:
+            stales.append(stl)
+        if not (usesX or usesY) and "LOG.Y" not in canon(arg):
+            continue
+        found = True
+        for name, src, dstmt in stales:
+            ctx.fail(mesh, dstmt, f"the local '{name}' is bound to the log array {src} before evaluations that can re-bind that array (the cache grows by re-allocation): the later read sees the stale, shorter array and ignores the points logged after the growth", construct=f"stale alias {name} = {src} across evaluations")
+        ok_arg = False
+        if isinstance(arg, ast.Subscript) and canon(arg.value) == "LOG.Y" and isinstance(arg.slice, ast.Slice) and arg.slice.lower is None and canon(arg.slice.upper) in ("(1 + LOG.Xn)", "(1 + LOG.X_max_idx)"):
+            ok_arg = call_name(am) in ("np.argmin", "np.nanargmin")
+        elif canon(arg) == "LOG.Y" and call_name(am) == "np.nanargmin":
+            # the whole table: sound iff unfilled rows are NaN at allocation and after every growth
+            ok_arg = _unfilled_rows_nan(prog, R, "Y")
+            if not ok_arg:
+                ctx.fail(mesh, st, "the initial incumbent is nanargmin over the whole value table, but unfilled rows of that table are not NaN everywhere (allocation / cache growth fill): an unfilled row can be selected as incumbent", construct="nanargmin over a table whose unfilled rows are not NaN")
+                continue
+        ctx.check(ok_arg and bool(usesX) and bool(usesY) and not stales, mesh, st, "initial incumbent = argmin of the filled log; point and value at the same index",
+                  "the initial incumbent is not the argmin over the filled part of the log with point and value taken at the same index", construct=f"initial incumbent {canon(am)[:50]} -> X:{bool(usesX)} Y:{bool(usesY)}")
     if not found:
         ctx.missing(mesh, "selection of the initial incumbent from the log")
 
@@ -246,6 +300,30 @@ def check(ctx):
                         okd = bool(sib)
             ctx.check(okd, step, c, f"deterministic branch: estimate := {y}, sd := 0", f"in the deterministic branch of {step.short} the estimate is not the observation {y} with SD 0", construct=f"deterministic estimate in {step.short}")
     ctx.assume("the log stores the observed value unchanged (C12-R3); the default incumbent-update policy (stobads off)")
+
+
+def _unfilled_rows_nan(prog, R, attr: str) -> bool:
+    from .c12 import per_row_arrays, record_routine
+    from .growth import analyse_grow, fill_of_fresh, norm_fill
+
+    arrays = per_row_arrays(prog, R)
+    if attr not in arrays or norm_fill(fill_of_fresh(arrays[attr]["call"])) != "np.nan":
+        return False
+    for fn in R.logger_cls.methods.values():
+        if fn.name == "__init__":
+            continue
+        scope = {n.name: n for n in ast.walk(fn.node) if isinstance(n, ast.FunctionDef) and n is not fn.node}
+        closure = {st.targets[0].id: st.value for st in fn.node.body if isinstance(st, ast.Assign) and len(st.targets) == 1 and isinstance(st.targets[0], ast.Name)}
+        for t, v, s, k in iter_stores(fn.node):
+            if self_attr_of(t) == attr and isinstance(t, ast.Attribute) and isinstance(v, ast.Call):
+                info = analyse_grow(v, f"self.{attr}", scope, closure)
+                if info is not None and norm_fill(info["fill"]) != "np.nan":
+                    return False
+                if info is None and not (isinstance(v, ast.Subscript)):
+                    # unknown re-binding of the table (not a prefix slice): be conservative
+                    if call_name(v) not in ("np.full",):
+                        return False
+    return True
 
 
 def _pairing(ctx, prog, R, fn, call, names):
